@@ -34,7 +34,7 @@ RULE = ("one run = program (1-2 files, 1-4 tests, 1-5 ordinary sites with arbitr
         "alignment, RaisesEq, unorderable bound, BadCopy, second operation on one snapshot, nested snapshot deleted / replaced / kept by the alignment, "
         "dict sub-snapshot with nested snapshot) x approved set x executor; distinct = (trouble kinds, approved set, executor, position class); "
         "non-trivial = at least one trouble event executed before an ordinary test")
-RULE += " Dimensions added while testing against seeded changes: leftover temp files of a killed earlier session in the durable start state; test files with a UTF-8 byte order mark; a project function of its own named external; short-report sessions; sessions started outside the project; outsourced externals; values of one type whose repr is code for some instances only."
+RULE += " Dimensions added while testing against seeded changes: leftover temp files of a killed earlier session in the durable start state; test files with a UTF-8 byte order mark; a project function of its own named external; short-report sessions; sessions started outside the project; outsourced externals; values of one type whose repr is code for some instances only; values of one type whose repr is code for some instances only; a helper module imported under two names."
 ASSUMPTIONS = ["trouble sites themselves are exempt from the value clause", "the documented 'no test_*() functions' usage error of run_inline is not reachable (every program has tests)"]
 REAL_VS_STUB = {
     "real": ["inline_snapshot library / plugin from /repo/src", "pytest session-finish hook (plugin executor)", "Example.run_inline", "black"],
@@ -159,6 +159,18 @@ def generate(seed, tier="quick"):
                                                   f"CONFIG = external({urng.choice(['settings', 'data/cfg.json', 'e1.json', 'x*y'])!r})"])
         kinds.append("own-function-named-external")
     leftover = driver == "plugin" and sub(seed, "leftover").random() < 0.12  # see execute
+    drng_ = sub(seed, "double-import")
+    if driver == "plugin" and drng_.random() < 0.08:
+        # a helper module with a wrong snapshot that is imported under two names in one session (two code objects, one call in the source)
+        prog["extra_files"] = {"hlpdir/__init__.py": "", "hlpdir/hlp.py": "from inline_snapshot import snapshot\n\n\ndef check_h(v):\n    return v == snapshot(4)\n"}
+        prog["files"][0]["tests"].append({"name": "test_zz_double_import", "events": [
+            {"t": "stmt", "text": "import os, sys"},
+            {"t": "stmt", "text": "sys.path.insert(0, os.path.join(os.path.dirname(os.path.abspath(__file__)), 'hlpdir'))"},
+            {"t": "stmt", "text": "import hlp"},
+            {"t": "stmt", "text": "import hlpdir.hlp as hlp2"},
+            {"t": "stmt", "text": "rec('dbl1', lambda: hlp.check_h(5))"},
+            {"t": "stmt", "text": "rec('dbl2', lambda: hlp2.check_h(5))"}]})
+        kinds.append("module-imported-under-two-names")
     srng = sub(seed, "sometimes-code")
     if srng.random() < 0.1:
         # values of ONE type whose repr is Python code for some instances and not for others (the parsable one is met first)
